@@ -1,289 +1,115 @@
 import Percival.Driver.Loop
-import Percival.Model.EArray
-import Percival.Model.EQueue
-import Percival.Model.SeqMap
-import Percival.Model.MPool
+import Percival.Model.DsStep
 /-!
-`pmodel ds`: line protocol for elasticarray.c / elasticqueue.c / seqptrmap.c / mpool.h (driver code).
-
-Every answer is `L1 | L2`.  L1: status, observable sizes (`sz`, `al`, `len`), `rf` = allocation requests
-refused during the op, data handed to the caller.  L2: internal fields, `live` = library blocks
-currently allocated, `req` = sizes requested during the op.
+`pmodel ds`: line protocol for elasticarray.c / elasticqueue.c / seqptrmap.c / mpool.h.  Thin by construction:
+`parseOp` turns a line into a typed `Spec.DSMon.Op`, `Model.DsStep.stepOp` does everything else, `render` prints
+its typed output.
 
 Ops: `failat k` / `failfrom k` / `failoff` (allocation schedule; requests above 2^22 bytes always fail),
 `ea_init nrec reclen seed`, `ea_resize nrec reclen seed`, `ea_append nrec reclen seed`, `ea_shrink nrec reclen`,
 `ea_trunc`, `ea_get pos reclen`, `ea_set pos reclen seed`, `ea_getsize reclen`, `ea_dump`, `ea_dup reclen`,
 `ea_export reclen`, `ea_free`, `eq_init reclen`, `eq_add seed`, `eq_del`, `eq_len`, `eq_get pos`, `eq_set pos seed`,
 `eq_dump`, `eq_free`, `sm_init`, `sm_add ptr`, `sm_get i`, `sm_del i`, `sm_min`, `sm_free`, `mp_malloc`,
-`mp_free id`, `mp_freenth j` (the in-use object with the (j mod count)-th smallest id), `mp_exit`, `end`.  Bytes written by the caller are `pat seed i`.
+`mp_free id`, `mp_freenth j`, `mp_exit`, `end`.
 -/
 namespace Percival.Driver.Ds
-open Percival.Driver Percival.Model Percival.Spec.DS
+open Percival.Driver Percival.Model Percival.Spec.DS Percival.Spec.DSMon Percival.Model.DsStep
 
-def cap : Nat := 2^22
-def dataMax : Nat := 2^22
+/-! ## text → typed op (shared with `pmodel dsmon`) -/
 
-/-- the allocation oracle of the harness: requests above `cap` fail; `mode` 1 = the `k`-th request after
-`base` fails, 2 = every request from the `k`-th on -/
-def sched (mode k base : Nat) : Nat → Nat → Bool := fun n sz =>
-  let idx := n - base + 1
-  decide (sz ≤ cap) && !(mode == 1 && idx == k) && !(mode == 2 && idx ≥ k)
+def parseOp : List String → Option Op
+  | ["failat", k] => do pure (.failat (← k.toNat?))
+  | ["failfrom", k] => do pure (.failfrom (← k.toNat?))
+  | ["failoff"] => some .failoff
+  | ["end"] => some .end_
+  | ["ea_init", n, r, seed] => do pure (.eaInit (← n.toNat?) (← r.toNat?) (← seed.toNat?))
+  | ["ea_resize", n, r, seed] => do pure (.eaResize (← n.toNat?) (← r.toNat?) (← seed.toNat?))
+  | ["ea_append", n, r, seed] => do pure (.eaAppend (← n.toNat?) (← r.toNat?) (← seed.toNat?))
+  | ["ea_shrink", n, r] => do pure (.eaShrink (← n.toNat?) (← r.toNat?))
+  | ["ea_trunc"] => some .eaTrunc
+  | ["ea_get", pos, r] => do pure (.eaGet (← pos.toNat?) (← r.toNat?))
+  | ["ea_set", pos, r, seed] => do pure (.eaSet (← pos.toNat?) (← r.toNat?) (← seed.toNat?))
+  | ["ea_getsize", r] => do pure (.eaGetsize (← r.toNat?))
+  | ["ea_dump"] => some .eaDump
+  | ["ea_dup", r] => do pure (.eaDup (← r.toNat?))
+  | ["ea_export", r] => do pure (.eaExport (← r.toNat?))
+  | ["ea_free"] => some .eaFree
+  | ["eq_init", r] => do pure (.eqInit (← r.toNat?))
+  | ["eq_add", seed] => do pure (.eqAdd (← seed.toNat?))
+  | ["eq_del"] => some .eqDel
+  | ["eq_len"] => some .eqLen
+  | ["eq_get", pos] => do pure (.eqGet (← pos.toNat?))
+  | ["eq_set", pos, seed] => do pure (.eqSet (← pos.toNat?) (← seed.toNat?))
+  | ["eq_dump"] => some .eqDump
+  | ["eq_free"] => some .eqFree
+  | ["sm_init"] => some .smInit
+  | ["sm_add", p] => do pure (.smAdd (← p.toNat?))
+  | ["sm_get", i] => do pure (.smGet (← i.toInt?))
+  | ["sm_del", i] => do pure (.smDel (← i.toInt?))
+  | ["sm_min"] => some .smMin
+  | ["sm_free"] => some .smFree
+  | ["mp_malloc"] => some .mpMalloc
+  | ["mp_free", id] => do pure (.mpFree (← id.toNat?))
+  | ["mp_freenth", j] => do pure (.mpFreenth (← j.toNat?))
+  | ["mp_exit"] => some .mpExit
+  | _ => none
 
-def pat (seed i : Nat) : UInt8 := UInt8.ofNat ((seed + i * 7 + (i / 256) * 13) % 256)
-def patBytes (seed n : Nat) : List UInt8 := (List.range n).map (pat seed)
-
-structure S where
-  m : Mem := { f := sched 0 0 0 }
-  ea : Option EArray.EA := none
-  eq : Option EQueue.EQ := none
-  sm : Option SeqMap.SM := none
-  mp : MPool.MP := MPool.init 4
-  inUse : List Nat := []
-
-def rf (m m' : Mem) : Nat := m'.refusals - m.refusals
-
-def showReq (m m' : Mem) : String :=
-  let l := (m'.log.take (m'.n - m.n)).reverse
-  if l.isEmpty then "req=-" else "req=" ++ ",".intercalate (l.map toString)
-
-def l2c (m m' : Mem) : String := s!"live={m'.live} {showReq m m'}"
+/-! ## typed output → text -/
 
 def stStr : St → String
   | .ok => "ok" | .fail => "fail" | .oob => "oob"
 
-def eaL1 (st : String) (a : EArray.EA) (m m' : Mem) : String :=
-  s!"{st} sz={a.size} al={a.alloc} rf={rf m m'}"
+def showWord : Word → String
+  | .ok => "ok" | .skip => "skip" | .badOp => "bad-op" | .oob => "oob" | .assert => "assert"
 
-def mkRecLen (n : Nat) : Option RecLen := if h : 0 < n then some ⟨n, h⟩ else none
+def showL2c (c : L2c) : String :=
+  s!"live={c.live} " ++ (if c.req.isEmpty then "req=-" else "req=" ++ ",".intercalate (c.req.map toString))
 
-/-- overwrite `buf[off ..)` with `src` (the caller writing through a pointer it was given) -/
-def poke (a : EArray.EA) (off : Nat) (src : List UInt8) : EArray.EA :=
-  match EArray.writeAt a.buf off src with
-  | some b => { a with buf := b }
-  | none => a
+def showEqL2 (x : EqL2) : String := s!"off={x.off} sz={x.sz} al={x.al} {showL2c x.c}"
 
-def eqL2 (q : EQueue.EQ) (m m' : Mem) : String :=
-  s!"off={q.offset} sz={q.ea.size} al={q.ea.alloc} {l2c m m'}"
+def showSmL2 (x : SmL2) : String :=
+  s!"moff={x.moff} mlen={x.mlen} qoff={x.qoff} qlen={x.qlen} sz={x.sz} al={x.al} {showL2c x.c}"
 
-def smL2 (s : SeqMap.SM) (m m' : Mem) : String :=
-  s!"moff={s.offset} mlen={s.len} qoff={s.q.offset} qlen={s.q.len} sz={s.q.ea.size} al={s.q.ea.alloc} {l2c m m'}"
+def showMpL2 (x : MpL2) : String :=
+  let st := if x.stack.isEmpty then "-" else ",".intercalate (x.stack.map toString)
+  s!"stack={st} asz={x.asz} na={x.na} ne={x.ne} st={if x.st then 1 else 0} dyn={if x.dyn then 1 else 0} {showL2c x.c}"
 
-def mpL2 (p : MPool.MP) (m m' : Mem) : String :=
-  let st := if p.stack.isEmpty then "-" else ",".intercalate (p.stack.map toString)
-  s!"stack={st} asz={p.allocsize} na={p.nallocs} ne={p.nempties} st={if p.state then 1 else 0} dyn={if p.dyn then 1 else 0} {l2c m m'}"
+def showEqExtra : EqExtra → String
+  | .none => ""
+  | .null => " null"
+  | .record b => s!" rec={hexOfBytes b}"
+  | .recs l =>
+      let recs := l.map fun | some b => hexOfBytes b | none => "?"
+      " recs=" ++ (if recs.isEmpty then "-" else ";".intercalate recs)
 
-/-- release everything (`end`, and what the harness does between cases) -/
-def freeAll (s : S) : S :=
-  let m := match s.ea with | some a => EArray.free a s.m | none => s.m
-  let m := match s.eq with | some q => EQueue.free q m | none => m
-  let m := match s.sm with | some x => SeqMap.free x m | none => m
-  { s with m := m, ea := none, eq := none, sm := none }
+def render : Out → String
+  | .word w => showWord w
+  | .ended live n => s!"end live={live} leaked=0 | n={n}"
+  | .initFail rf c => s!"fail rf={rf} | {showL2c c}"
+  | .ea st sz al rf none c => s!"{stStr st} sz={sz} al={al} rf={rf} | {showL2c c}"
+  | .ea st sz al rf (some (n, b)) c => s!"{stStr st} sz={sz} al={al} rf={rf} n={n} out={hexOfBytes b} | {showL2c c}"
+  | .eaExport rf n b c => s!"ok rf={rf} n={n} out={hexOfBytes b} | {showL2c c}"
+  | .freed c => s!"ok | {showL2c c}"
+  | .eq st len rf x l2 => s!"{stStr st} len={len} rf={rf}{showEqExtra x} | {showEqL2 l2}"
+  | .smInit rf l2 => s!"ok rf={rf} | {showSmL2 l2}"
+  | .sm st rf num ptr l2 =>
+      s!"{stStr st} rf={rf}" ++ (match num with | some i => s!" num={i}" | none => "") ++
+        (match ptr with | some p => s!" ptr={p}" | none => "") ++ s!" | {showSmL2 l2}"
+  | .mp rf o l2 =>
+      s!"ok rf={rf}" ++ (match o with | .none => "" | .null => " null" | .obj x => s!" obj={x}") ++ s!" | {showMpL2 l2}"
+  | .mpExit c => s!"ok leaked=0 | {showL2c c}"
 
-def poolExit (s : S) : S :=
-  let (_, m) := MPool.atexit s.mp s.m
-  -- the harness itself releases the objects still in use
-  let m := s.inUse.foldl (fun m _ => m.free false) m
-  { s with m := m, mp := MPool.init 4, inUse := [] }
+def step (s : DsStep.S) (toks : List String) : DsStep.S × String :=
+  match parseOp toks with
+  | some op => let r := stepOp s op; (r.1, render r.2)
+  | none => (s, "bad-op")
 
-def step (s : S) (toks : List String) : S × String :=
-  let m := s.m
-  match toks with
-  | ["failat", k] => ({ s with m := { m with f := sched 1 k.toNat! m.n } }, "ok")
-  | ["failfrom", k] => ({ s with m := { m with f := sched 2 k.toNat! m.n } }, "ok")
-  | ["failoff"] => ({ s with m := { m with f := sched 0 0 0 } }, "ok")
-  | ["end"] =>
-    let s' := poolExit (freeAll s)
-    (s', s!"end live={s'.m.live} leaked=0 | n={s'.m.n}")
-  -- ---------------------------------------------------------------- elastic array
-  | ["ea_init", nrec, reclen, seed] =>
-    match mkRecLen reclen.toNat! with
-    | none => (s, "bad-op")
-    | some r =>
-      let m0 := match s.ea with | some a => EArray.free a m | none => m
-      match EArray.init nrec.toNat! r m0 with
-      | (none, m') => ({ s with m := m', ea := none }, s!"fail rf={rf m0 m'} | {l2c m0 m'}")
-      | (some a, m') =>
-        let a := (EArray.fillFrom a 0 (patBytes seed.toNat! a.size)).getD a
-        ({ s with m := m', ea := some a }, s!"{eaL1 "ok" a m0 m'} | {l2c m0 m'}")
-  | op :: args =>
-    if op.startsWith "ea_" then
-      match s.ea with
-      | none => (s, "skip")
-      | some a =>
-        match op, args with
-        | "ea_resize", [nrec, reclen, seed] =>
-          match mkRecLen reclen.toNat! with
-          | none => (s, "bad-op")
-          | some r =>
-            match EArray.resizeRec a nrec.toNat! r m with
-            | (true, a', m') =>
-              let a' := (EArray.fillFrom a' a.size (patBytes seed.toNat! (a'.size - a.size))).getD a'
-              ({ s with m := m', ea := some a' }, s!"{eaL1 "ok" a' m m'} | {l2c m m'}")
-            | (false, a', m') => ({ s with m := m', ea := some a' }, s!"{eaL1 "fail" a' m m'} | {l2c m m'}")
-        | "ea_append", [nrec, reclen, seed] =>
-          match mkRecLen reclen.toNat! with
-          | none => (s, "bad-op")
-          | some r =>
-            let n := nrec.toNat!
-            let data := if n ≤ dataMax / r.val then patBytes seed.toNat! (n * r.val) else [0]
-            match EArray.append a data n r m with
-            | (st, a', m') => ({ s with m := m', ea := some a' }, s!"{eaL1 (stStr st) a' m m'} | {l2c m m'}")
-        | "ea_shrink", [nrec, reclen] =>
-          match mkRecLen reclen.toNat! with
-          | none => (s, "bad-op")
-          | some r =>
-            match EArray.shrink a nrec.toNat! r m with
-            | (a', m') => ({ s with m := m', ea := some a' }, s!"{eaL1 "ok" a' m m'} | {l2c m m'}")
-        | "ea_trunc", [] =>
-          match EArray.truncate a m with
-          | (ok, a', m') =>
-            ({ s with m := m', ea := some a' }, s!"{eaL1 (if ok then "ok" else "fail") a' m m'} | {l2c m m'}")
-        | "ea_get", [pos, reclen] =>
-          match mkRecLen reclen.toNat! with
-          | none => (s, "skip")
-          | some r =>
-            match EArray.getRec a pos.toNat! r with
-            | some b => (s, s!"{eaL1 "ok" a m m} n=1 out={hexOfBytes b} | {l2c m m}")
-            | none => (s, "skip")
-        | "ea_set", [pos, reclen, seed] =>
-          match mkRecLen reclen.toNat! with
-          | none => (s, "skip")
-          | some r =>
-            match EArray.setRec a pos.toNat! r (patBytes seed.toNat! r.val) with
-            | some a' => ({ s with ea := some a' }, s!"{eaL1 "ok" a' m m} | {l2c m m}")
-            | none => (s, "skip")
-        | "ea_getsize", [reclen] =>
-          match mkRecLen reclen.toNat! with
-          | none => (s, "bad-op")
-          | some r => (s, s!"{eaL1 "ok" a m m} n={EArray.getsize a r} out=- | {l2c m m}")
-        | "ea_dump", [] =>
-          (s, s!"{eaL1 "ok" a m m} n={a.size} out={hexOfBytes (a.buf.take a.size)} | {l2c m m}")
-        | "ea_dup", [reclen] =>
-          match mkRecLen reclen.toNat! with
-          | none => (s, "bad-op")
-          | some r =>
-            match EArray.exportdup a r m with
-            | (.ok, some (b, n), m') =>
-              let m'' := m'.free false     -- the harness frees the copy
-              ({ s with m := m'' }, s!"{eaL1 "ok" a m m'} n={n} out={hexOfBytes b} | {l2c m m''}")
-            | (st, _, m') => ({ s with m := m' }, s!"{eaL1 (stStr st) a m m'} | {l2c m m'}")
-        | "ea_export", [reclen] =>
-          match mkRecLen reclen.toNat! with
-          | none => (s, "bad-op")
-          | some r =>
-            match EArray.exportBuf a r m with
-            | (some (b, n), a', m') =>
-              let m'' := m'.free (a'.alloc == 0)   -- the harness frees the exported block
-              ({ s with m := m'', ea := none },
-               s!"ok rf={rf m m'} n={n} out={hexOfBytes (b.take a'.size)} | {l2c m m''}")
-            | (none, a', m') => ({ s with m := m', ea := some a' }, s!"{eaL1 "fail" a' m m'} | {l2c m m'}")
-        | "ea_free", [] =>
-          let m' := EArray.free a m
-          ({ s with m := m', ea := none }, s!"ok | {l2c m m'}")
-        | _, _ => (s, "bad-op")
-    -- -------------------------------------------------------------- elastic queue
-    else if op == "eq_init" then
-      match args with
-      | [reclen] =>
-        match mkRecLen reclen.toNat! with
-        | none => (s, "bad-op")
-        | some r =>
-          let m0 := match s.eq with | some q => EQueue.free q m | none => m
-          match EQueue.init r m0 with
-          | (none, m') => ({ s with m := m', eq := none }, s!"fail rf={rf m0 m'} | {l2c m0 m'}")
-          | (some q, m') => ({ s with m := m', eq := some q }, s!"ok len={q.len} rf={rf m0 m'} | {eqL2 q m0 m'}")
-      | _ => (s, "bad-op")
-    else if op.startsWith "eq_" then
-      match s.eq with
-      | none => (s, "skip")
-      | some q =>
-        match op, args with
-        | "eq_add", [seed] =>
-          match EQueue.add q (patBytes seed.toNat! q.reclen.val) m with
-          | (st, q', m') => ({ s with m := m', eq := some q' }, s!"{stStr st} len={q'.len} rf={rf m m'} | {eqL2 q' m m'}")
-        | "eq_del", [] =>
-          match EQueue.delete q m with
-          | (st, q', m') => ({ s with m := m', eq := some q' }, s!"{stStr st} len={q'.len} rf={rf m m'} | {eqL2 q' m m'}")
-        | "eq_len", [] => (s, s!"ok len={EQueue.getlen q} rf=0 | {eqL2 q m m}")
-        | "eq_get", [pos] =>
-          match EQueue.get q pos.toNat! with
-          | .null => (s, s!"ok len={q.len} rf=0 null | {eqL2 q m m}")
-          | .record b => (s, s!"ok len={q.len} rf=0 rec={hexOfBytes b} | {eqL2 q m m}")
-          | .oob => (s, "oob")
-        | "eq_set", [pos, seed] =>
-          if pos.toNat! ≥ q.len then (s, "skip") else
-          match EQueue.set q pos.toNat! (patBytes seed.toNat! q.reclen.val) with
-          | some q' => ({ s with eq := some q' }, s!"ok len={q'.len} rf=0 | {eqL2 q' m m}")
-          | none => (s, "oob")
-        | "eq_dump", [] =>
-          let recs := (List.range q.len).map fun i =>
-            match EQueue.get q i with | .record b => hexOfBytes b | _ => "?"
-          let txt := if recs.isEmpty then "-" else ";".intercalate recs
-          (s, s!"ok len={q.len} rf=0 recs={txt} | {eqL2 q m m}")
-        | "eq_free", [] =>
-          let m' := EQueue.free q m
-          ({ s with m := m', eq := none }, s!"ok | {l2c m m'}")
-        | _, _ => (s, "bad-op")
-    -- -------------------------------------------------------------- sequential pointer map
-    else if op == "sm_init" then
-      let m0 := match s.sm with | some x => SeqMap.free x m | none => m
-      match SeqMap.init m0 with
-      | (none, m') => ({ s with m := m', sm := none }, s!"fail rf={rf m0 m'} | {l2c m0 m'}")
-      | (some x, m') => ({ s with m := m', sm := some x }, s!"ok rf={rf m0 m'} | {smL2 x m0 m'}")
-    else if op.startsWith "sm_" then
-      match s.sm with
-      | none => (s, "skip")
-      | some x =>
-        match op, args with
-        | "sm_add", [p] =>
-          match SeqMap.add x p.toNat! m with
-          | (.num i, x', m') => ({ s with m := m', sm := some x' }, s!"ok rf={rf m m'} num={i} | {smL2 x' m m'}")
-          | (.fail, x', m') => ({ s with m := m', sm := some x' }, s!"fail rf={rf m m'} num=-1 | {smL2 x' m m'}")
-          | (.assertFail, _, _) => (s, "assert")
-          | (.oob, _, _) => (s, "oob")
-        | "sm_get", [i] =>
-          match SeqMap.get x i.toInt! with
-          | .ptr p => (s, s!"ok rf=0 ptr={p} | {smL2 x m m}")
-          | .oob => (s, "oob")
-        | "sm_del", [i] =>
-          match SeqMap.delete x i.toInt! m with
-          | (st, x', m') => ({ s with m := m', sm := some x' }, s!"{stStr st} rf={rf m m'} | {smL2 x' m m'}")
-        | "sm_min", [] => (s, s!"ok rf=0 num={SeqMap.getmin x} | {smL2 x m m}")
-        | "sm_free", [] =>
-          let m' := SeqMap.free x m
-          ({ s with m := m', sm := none }, s!"ok | {l2c m m'}")
-        | _, _ => (s, "bad-op")
-    -- -------------------------------------------------------------- object pool
-    else if op == "mp_malloc" then
-      match MPool.malloc s.mp 40 m with
-      | (some x, p', m') =>
-        ({ s with m := m', mp := p', inUse := x :: s.inUse }, s!"ok rf={rf m m'} obj={x} | {mpL2 p' m m'}")
-      | (none, p', m') => ({ s with m := m', mp := p' }, s!"ok rf={rf m m'} null | {mpL2 p' m m'}")
-    else if op == "mp_free" then
-      match args with
-      | [id] =>
-        let x := id.toNat!
-        if !s.inUse.contains x then (s, "skip") else
-        match MPool.free s.mp x m with
-        | (p', m') => ({ s with m := m', mp := p', inUse := s.inUse.erase x }, s!"ok rf={rf m m'} | {mpL2 p' m m'}")
-      | _ => (s, "bad-op")
-    else if op == "mp_freenth" then
-      match args with
-      | [j] =>
-        let sorted := s.inUse.mergeSort (· ≤ ·)
-        match sorted[j.toNat! % sorted.length]? with
-        | none => (s, "skip")
-        | some x =>
-          match MPool.free s.mp x m with
-          | (p', m') =>
-            ({ s with m := m', mp := p', inUse := s.inUse.erase x }, s!"ok rf={rf m m'} obj={x} | {mpL2 p' m m'}")
-      | _ => (s, "bad-op")
-    else if op == "mp_exit" then
-      let s' := poolExit s
-      (s', s!"ok leaked=0 | {l2c m s'.m}")
-    else (s, "bad-op")
-  | _ => (s, "bad-op")
+def main (_args : List String) : IO UInt32 := loop ({} : DsStep.S) step
 
-def main (_args : List String) : IO UInt32 := loop ({} : S) step
+/-! names `Driver/Af.lean` uses: the harness' allocation schedule, the refused-request count and the printed
+allocator part of L2 -/
+def sched := DsStep.sched
+def rf := DsStep.rf
+def l2c (m m' : Mem) : String := showL2c (DsStep.l2c m m')
 
 end Percival.Driver.Ds
